@@ -183,7 +183,7 @@ fn run_client(argv: &[String]) -> ! {
     };
     let results = run_ops(conn.clone(), &ops);
     // Connection::address() is documented as the way to open another connection to the same service
-    let reconnect = if transport == "address" || transport == "activate" {
+    let reconnect = if (transport == "address" || transport == "activate") && !argv.iter().any(|a| a == "--no-reconnect") {
         let a = conn.read().unwrap().address();
         match varlink::Connection::with_address(&a) {
             Ok(c2) => {
@@ -215,7 +215,7 @@ fn free_tcp6_port() -> u16 {
 }
 
 fn c16(args: &Args) -> ! {
-    let mut rep = Report::new("C16", "configuration matrix, one OS schedule per case: (1) transports {unix path, unix path;mode=0600, unix:@abstract, tcp:127.0.0.1:port, tcp:[::1]:port, with_activate(service), with_bridge(service --stdio)} x every sequence of client operations of length<=2 (thorough 3) over {GetInfo, Echo, Fail, Stream+drain, oneway Echo, unknown interface} through the real client API in a capped subprocess, results compared with an in-memory run of the same operations against the same interface; (2) activation contract read back from the spawned service (descriptor 3 listening unix socket, LISTEN_FDS/LISTEN_FDNAMES/LISTEN_PID/VARLINK_ADDRESS) with the parent's lowest free descriptor {3, >3}; (1b) both filesystem socket paths carry a stale socket file when the server starts; address and with_activate transports open a second connection through Connection::address(); (2b) a foreign activator hands a blocking / O_NONBLOCK listening socket as descriptor 3 to a service running listen() with the default configuration, three clients in a row must be served; (2c) re-activation: the service leaves when idle and is started again on the activator's socket, whose file must survive it; (3) server side: LISTEN_FDS x LISTEN_PID x LISTEN_FDNAMES x address scheme (576 cases, all in both tiers) against the sd_listen_fds reference; (4) address strings scheme x tail: client and server agree on InvalidAddress; non-trivial = distinct (part, configuration, sequence)");
+    let mut rep = Report::new("C16", "configuration matrix, one OS schedule per case: (1) transports {unix path, unix path;mode=0600, unix:@abstract, tcp:127.0.0.1:port, tcp:[::1]:port, with_activate(service), with_bridge(service --stdio)} x every sequence of client operations of length<=2 (thorough 3) over {GetInfo, Echo, Fail, Stream+drain, oneway Echo, unknown interface} through the real client API in a capped subprocess, results compared with an in-memory run of the same operations against the same interface; (2) activation contract read back from the spawned service (descriptor 3 listening unix socket, LISTEN_FDS/LISTEN_FDNAMES/LISTEN_PID/VARLINK_ADDRESS) with the parent's lowest free descriptor {3, >3}; (1b) both filesystem socket paths carry a stale socket file when the server starts; address and with_activate transports open a second connection through Connection::address(); (2b) a foreign activator hands a blocking / O_NONBLOCK listening socket as descriptor 3 to a service running listen() with the default configuration, three clients in a row must be served; (2d) an activated command that leaves without serving makes the call fail, not hang; (2c) re-activation: the service leaves when idle and is started again on the activator's socket, whose file must survive it; (3) server side: LISTEN_FDS x LISTEN_PID x LISTEN_FDNAMES x address scheme (576 cases, all in both tiers) against the sd_listen_fds reference; (4) address strings scheme x tail: client and server agree on InvalidAddress; non-trivial = distinct (part, configuration, sequence)");
     let dir = tempfile::Builder::new().prefix("px16").tempdir_in("/dev/shm").or_else(|_| tempfile::tempdir()).unwrap();
     let d = dir.path().to_path_buf();
     let replay = args.replay_case();
@@ -375,6 +375,30 @@ fn c16(args: &Args) -> ! {
                 if !ok {
                     rep.violation(&format!("C16/foreign-activator/{}", if nonblock { "nonblocking-listener" } else { "blocking-listener" }), &format!("three clients in a row against a service activated with descriptor 3 ({}): {}", if nonblock { "O_NONBLOCK set" } else { "blocking" }, Value::Array(results)), case);
                 }
+            }
+        }
+    }
+    // ---- (2d) an activated command that leaves without serving (not found, crashes at once, exits after a moment): the
+    // call must fail like a call to a dead service, it must not hang
+    if want_part("dead-activation") && (args.shard == 3 % args.nshards || replay.is_some()) {
+        for cmdline in ["false", "sleep 0.3", "/nonexistent/service --varlink=$VARLINK_ADDRESS"] {
+            let case = json!({"part": "dead-activation", "command": cmdline});
+            if let Some(r) = &replay {
+                if *r != case {
+                    continue;
+                }
+            }
+            rep.eval(Some(&case.to_string()));
+            let mut c = Command::new(self_exe());
+            c.args(["run-client", "--transport", "activate", "--target", cmdline, "--ops", "[\"getinfo:x\"]", "--no-reconnect"]);
+            let (status, out, _e) = run_capped(c, None, Duration::from_secs(8));
+            let v: Value = serde_json::from_slice(&out).unwrap_or(Value::Null);
+            rep.outcome(&format!("dead:{}", status));
+            let failed_cleanly = status == "exit:0" && (v.get("connect_error").is_some() || v["results"].as_array().map(|a| a.len() == 1 && a[0].get("err").is_some()).unwrap_or(false));
+            if status == "timeout" {
+                rep.violation("C16/activate/hang-on-dead-service", &format!("with_activate({:?}): the call did not return within 8 s although the activated command is gone", cmdline), case);
+            } else if !failed_cleanly {
+                rep.violation("C16/activate/dead-service", &format!("with_activate({:?}): expected a connection error, got status {} output {}", cmdline, status, String::from_utf8_lossy(&out).chars().take(300).collect::<String>()), case);
             }
         }
     }
@@ -630,7 +654,7 @@ fn spawn_resolver(addr: &str, map: &[(String, String)]) -> Proc {
 }
 
 fn c20(args: &Args) -> ! {
-    let mut rep = Report::new("C20", "the real `varlink call` binary against a scripted service, one OS schedule per case: reply values {{}, nested objects/arrays 3 deep, non-ASCII and escape-heavy strings, i64::MIN, u64::MAX, 1e300, -0.0, empty-string keys} x {call; --more with k in 0..=3 continues replies; error with and without parameters; error in the middle of a stream; connection closed mid-stream} x address forms {unix path with several slashes and dots in directory names, abstract, tcp over IPv4 and over a bracketed IPv6 literal, bare interface.method through a -R resolver} x --color {on, off}; oracle: stdout (escape sequences stripped) parsed as a stream of JSON values equals the parameters of the successful replies in order, exit status 0 exactly when every expected reply arrived and none was an error, on an error reply stderr names the error (and contains its parameters as JSON when present); non-trivial = distinct (value, mode, address form, colour)");
+    let mut rep = Report::new("C20", "the real `varlink call` binary against a scripted service, one OS schedule per case: reply values {{}, nested objects/arrays 3 deep, non-ASCII and escape-heavy strings, i64::MIN, u64::MAX, 1e300, -0.0, empty-string keys} x {call; --more with k in 0..=3 continues replies; error with and without parameters; error in the middle of a stream; connection closed mid-stream} x address forms {unix path with several slashes and dots in directory names, abstract, tcp over IPv4 and over a bracketed IPv6 literal, bare interface.method through a -R resolver, an abstract address with `;` parameters, a service started by the tool itself with --activate} x --color {on, off}; oracle: stdout (escape sequences stripped) parsed as a stream of JSON values equals the parameters of the successful replies in order, exit status 0 exactly when every expected reply arrived and none was an error, on an error reply stderr names the error (and contains its parameters as JSON when present); non-trivial = distinct (value, mode, address form, colour)");
     if !Path::new(VARLINK_CLI).exists() {
         machinery("varlink CLI binary missing (./check --setup builds it)");
     }
@@ -644,6 +668,8 @@ fn c20(args: &Args) -> ! {
         ("tcp", format!("tcp:127.0.0.1:{}", port)),
         ("tcp6", format!("tcp:[::1]:{}", free_tcp6_port())),
     ];
+    // an abstract socket address may carry `;` parameters like any unix address: same service, second spelling
+    let abstract_params = format!("{};mode=0600", forms[1].1);
     let _servers: Vec<Proc> = forms.iter().map(|(_, a)| spawn_service(a, "org.verif.a")).collect();
     let raddr = format!("unix:{}/resolver", d.display());
     let _resolver = spawn_resolver(&raddr, &[("org.verif.a".to_string(), forms[0].1.clone())]);
@@ -692,6 +718,9 @@ fn c20(args: &Args) -> ! {
     scenarios.push(("stream-without-more".into(), "Stream", json!({"vs": [{"i": 0}]}), vec![], false, vec!["org.verif.a.NeedMore".into()], false));
     let mut all_forms: Vec<(&str, String, Option<String>)> = forms.iter().map(|(n, a)| (*n, a.clone(), None)).collect();
     all_forms.push(("resolver", String::new(), Some(raddr.clone())));
+    all_forms.push(("abstract-params", abstract_params.clone(), None));
+    // `varlink --activate CMD call METHOD`: the tool starts the service itself
+    all_forms.push(("activate", format!("ACTIVATE:{} serve --iface org.verif.a --idle 20 --varlink=$VARLINK_ADDRESS", svc_exe().display()), None));
     for (sname, method, cargs, expect, ok, errfrag, more) in &scenarios {
         for (fname, addr, resolver) in &all_forms {
             for color in ["off", "on"] {
@@ -713,11 +742,15 @@ fn c20(args: &Args) -> ! {
                 if let Some(r) = resolver {
                     cmd.arg("-R").arg(r);
                 }
+                let activate = addr.strip_prefix("ACTIVATE:");
+                if let Some(a) = activate {
+                    cmd.arg("--activate").arg(a);
+                }
                 cmd.arg("call");
                 if *more {
                     cmd.arg("--more");
                 }
-                let target = if resolver.is_some() { format!("org.verif.a.{}", method) } else { format!("{}/org.verif.a.{}", addr, method) };
+                let target = if resolver.is_some() || activate.is_some() { format!("org.verif.a.{}", method) } else { format!("{}/org.verif.a.{}", addr, method) };
                 cmd.arg(&target).arg(cargs.to_string());
                 let (status, out, err) = run_capped(cmd, None, Duration::from_secs(15));
                 let so = strip_ansi(&String::from_utf8_lossy(&out));
@@ -876,7 +909,15 @@ fn c18(args: &Args) -> ! {
     let a_addr = format!("unix:{}/svca", d.display());
     let b_addr = format!("unix:{}/svcb", d.display());
     let _sa = spawn_service(&a_addr, "org.verif.a");
-    let _sb = spawn_service(&b_addr, "org.verif.b");
+    // (service b serves a single connection at a time: a bridge that keeps an earlier connection to it open would starve itself)
+    let _sb = {
+        let c = Command::new(svc_exe()).args(["serve", "--address", &b_addr, "--iface", "org.verif.b", "--idle", "60", "--workers", "1"]).stdin(Stdio::null()).stdout(Stdio::null()).stderr(Stdio::null()).spawn().unwrap_or_else(|e| machinery(&format!("cannot spawn verif-svc: {}", e)));
+        let p = Proc::new(c);
+        if !wait_connectable(&b_addr) {
+            machinery("verif-svc b did not come up");
+        }
+        p
+    };
     // the resolver lives at a private address given with -R: service-info queries must be answered by *that* resolver
     // (nothing may depend on the default address unix:/run/org.varlink.resolver)
     let hard_owned = format!("unix:{}/resolver", d.display());
@@ -934,6 +975,9 @@ fn c18(args: &Args) -> ! {
                     seqs.push(vec![a, mid, b]);
                 }
             }
+            // the single-connection service three times in a row, and around another target
+            seqs.push(vec![1, 1, 1]);
+            seqs.push(vec![1, 0, 1]);
         }
         for s in seqs {
             for pipelined in [false, true] {
@@ -1191,7 +1235,7 @@ fn c18(args: &Args) -> ! {
 /// listen_multiplex). Request streams are written to its socket under enumerated write schedules; the replies must
 /// not depend on the schedule.
 fn c02m(args: &Args) -> ! {
-    let mut rep = Report::new("C02", "the repository's reference caller of the documented slice-plus-tail API, the real `ping --multiplex` example server as a process, one OS schedule per case: pipelined Ping streams {3 small; small + 9000-byte; 8150..8200-byte request (crossing the 8 KiB read size) + small; bursts of exactly 8192 / 16384 bytes in total; 60 small; 300 small (quick 120)} x write schedules {one write; a cut at every offset of a window around each message boundary and around 8192 / 16384, with a pause; a cut at every k-th byte (k = 1 for the short stream)}: exactly one pong per ping, in order, with the ping's own string; non-trivial = distinct (stream, schedule)");
+    let mut rep = Report::new("C02", "the repository's reference caller of the documented slice-plus-tail API, the real `ping --multiplex` example server as a process, one OS schedule per case: pipelined Ping streams {3 small; small + 9000-byte; 8150..8200-byte request (crossing the 8 KiB read size) + small; bursts of exactly 8192 / 16384 bytes in total; 60 small; 300 small (quick 120)} x write schedules {one write; a cut at every offset of a window around each message boundary and around 8192 / 16384, with a pause; a cut at every k-th byte (k = 1 for the short stream); one write or one cut followed at once by a half-close}: exactly one pong per ping, in order, with the ping's own string; non-trivial = distinct (stream, schedule)");
     let ping = Path::new("/verif/.target/repo/debug/ping");
     if !ping.exists() {
         machinery("ping example binary missing (the driver builds it)");
@@ -1260,6 +1304,11 @@ fn c02m(args: &Args) -> ! {
         }
         let k = if stream.len() < 200 { 1 } else if stream.len() < 4000 { 37 } else { 1021 };
         schedules.push((format!("every-{}", k), (1..stream.len()).filter(|i| i % k == 0).collect()));
+        // the sender half-closes in the same breath as its last byte (the replies are still owed)
+        schedules.push(("one-write+half-close".into(), vec![usize::MAX]));
+        if let Some(c) = cuts.first() {
+            schedules.push((format!("cut@{}+half-close", c), vec![*c, usize::MAX]));
+        }
         for (schname, sched) in &schedules {
             idx += 1;
             let case = json!({"part": "multiplex", "stream": sname, "schedule": schname});
@@ -1285,7 +1334,8 @@ fn c02m(args: &Args) -> ! {
             let mut got: Vec<u8> = vec![];
             let mut prev = 0;
             let pause = Duration::from_millis(if sched.len() > 50 { 1 } else { 12 });
-            let mut points = sched.clone();
+            let half_close = sched.last() == Some(&usize::MAX);
+            let mut points: Vec<usize> = sched.iter().copied().filter(|p| *p != usize::MAX).collect();
             points.push(stream.len());
             let mut werr = None;
             for p in points {
@@ -1298,7 +1348,12 @@ fn c02m(args: &Args) -> ! {
                 while let Rd::Data(b) = read_fd(rfd, Duration::from_millis(0)) {
                     got.extend(b);
                 }
-                std::thread::sleep(pause);
+                if !(half_close && p == stream.len()) {
+                    std::thread::sleep(pause);
+                }
+            }
+            if half_close {
+                let _ = s.shutdown(std::net::Shutdown::Write);
             }
             let deadline = Instant::now() + Duration::from_secs(6);
             while count_finals(&got) < pings.len() && Instant::now() < deadline {
